@@ -141,6 +141,7 @@ func main() {
 		}
 		writeKeys(*repo, filepath.Join(*genDir, "GeneratedKeys.v"))
 		writeDenom(*repo, filepath.Join(*genDir, "GeneratedDenom.v"))
+		writeKeeper(*repo, "streamonstore", "", filepath.Join(*genDir, "GeneratedStreamKeeperOnStore.v"))
 		for _, sp := range storeSpecs {
 			writeStore(*repo, sp, filepath.Join(*genDir, "Generated"+strings.Title(sp.module)+"Store.v"))
 		}
